@@ -47,6 +47,7 @@ type WriterSpec struct {
 	// interleaving with other connections (C02m): called before every op / after the last one
 	turn   func(i int)
 	finish func()
+	shared *sharedFree // the free list of a BufferPool shared with other connections
 }
 
 var sentinels = websocket.VerifErrors()
@@ -159,6 +160,7 @@ type tPool struct {
 	free      []interface{}
 	lastGiven unsafe.Pointer
 	viol      int
+	shared    *sharedFree
 }
 
 func bufOf(v interface{}) []byte {
@@ -175,8 +177,19 @@ func bufOf(v interface{}) []byte {
 
 const poison = 0xA5
 
+// several connections may share one free list (C02m): every connection keeps its own event log
+// and its own "which buffer was I given" check
+type sharedFree struct{ free []interface{} }
+
+func (p *tPool) fl() *[]interface{} {
+	if p.shared != nil {
+		return &p.shared.free
+	}
+	return &p.free
+}
+
 func (p *tPool) checkPoison() {
-	for _, v := range p.free {
+	for _, v := range *p.fl() {
 		for _, b := range bufOf(v) {
 			if b != poison {
 				p.viol = 1
@@ -188,13 +201,14 @@ func (p *tPool) checkPoison() {
 
 func (p *tPool) Get() interface{} {
 	*p.log = append(*p.log, wEvent{kind: 4})
-	if len(p.free) == 0 {
+	fl := p.fl()
+	if len(*fl) == 0 {
 		p.lastGiven = nil
 		return nil
 	}
 	p.checkPoison()
-	v := p.free[len(p.free)-1]
-	p.free = p.free[:len(p.free)-1]
+	v := (*fl)[len(*fl)-1]
+	*fl = (*fl)[:len(*fl)-1]
 	b := bufOf(v)
 	if len(b) > 0 {
 		p.lastGiven = unsafe.Pointer(&b[0])
@@ -215,7 +229,13 @@ func (p *tPool) Put(v interface{}) {
 	for i := range b {
 		b[i] = poison
 	}
-	p.free = append(p.free, v)
+	fl := p.fl()
+	for _, x := range *fl {
+		if bx := bufOf(x); len(bx) > 0 && &bx[0] == &b[0] {
+			p.viol = 2 // the same buffer is in the pool twice
+		}
+	}
+	*fl = append(*fl, v)
 }
 
 // counter mask source
@@ -311,7 +331,7 @@ func writerRun(sp *WriterSpec) (core.Exec, []byte) {
 	var pool *tPool
 	var bp websocket.BufferPool
 	if sp.Pooled {
-		pool = &tPool{log: &log}
+		pool = &tPool{log: &log, shared: sp.shared}
 		bp = pool
 	}
 	if sp.Hook {
@@ -883,6 +903,20 @@ func c02Gen(rng *rand.Rand, tier string) []core.Spec {
 		sp := &WriterSpec{Prop: 2, Server: rng.Intn(2) == 0, WBuf: wbuf, Pooled: rng.Intn(2) == 0, Negotiated: negotiated, FailAt: -1, Hook: i%16 == 0}
 		sp.Ops = genWriteProgram(rng, wbuf, negotiated, 1+rng.Intn(5), maxLen, true, 8)
 		out = append(out, sp)
+	}
+	// control-type writers fed by ReadFrom: valid and oversized payloads, the source reporting EOF with
+	// the data or separately, smallest and ordinary buffers (an oversized control message must be
+	// refused without a byte on the wire, never fragmented)
+	for _, server := range []bool{false, true} {
+		for _, wbuf := range []int{1, 125, 126, 300} {
+			for _, n := range []int{100, 125, 126, 200, 251, 400} {
+				data := genWPayload(rng, n)
+				for _, glued := range []bool{false, true} {
+					out = append(out, &WriterSpec{Prop: 2, Server: server, WBuf: wbuf, FailAt: -1, Note: "control-writer-ReadFrom",
+						Ops: []WOp{{K: 1, Ty: 9}, {K: 4, Chunks: []B{B(data[:n/2]), B(data[n/2:])}, Bv: glued}, {K: 5}, {K: 0, Ty: 2, Data: B("next")}}})
+				}
+			}
+		}
 	}
 	// single frames whose payload sits on a length-encoding boundary (125/126, 65535/65536): by the
 	// server's direct path (WriteMessage, one large Write) and by a write buffer that holds exactly
